@@ -261,6 +261,8 @@ impl<T: RealNumber> DecisionTreeRegressor<T> {
         parameters: DecisionTreeRegressorParameters,
         rng: &mut impl Rng,
     ) -> Result<DecisionTreeRegressor<T>, Failed> {
+        #[cfg(smartcore_verif)]
+        crate::verif::tree_fit_samples(&samples);
         let y_m = M::from_row_vector(y.clone());
 
         let (_, y_ncols) = y_m.shape();
